@@ -7,7 +7,6 @@ PROPS = {}
 
 PROPS["C14"] = dict(
     module="Grenad.Props.C14",
-    theorems=T("Grenad.Props.C14", ["C14_roundtrip", "C14_width", "C14_entry", "C14_writer_accepts"]),
     streams={"varint": (24, 200)},
     rules={},
     exhaustive_in="thorough",
@@ -16,7 +15,6 @@ PROPS["C14"] = dict(
 
 PROPS["C13"] = dict(
     module="Grenad.Props.C13",
-    theorems=T("Grenad.Props.C13", ["C13_open_iff", "C13_total", "C13_fields_v2", "C13_fields_v1", "C13_truncation", "C13_crash_prefix"]),
     streams={"open": (64, 800), "trunc": (16, 160)},
     rules={"ops": ["open"]},
     assumptions=["the source is an in-memory Cursor (seek before the start fails, reads are exact)"],
@@ -24,14 +22,30 @@ PROPS["C13"] = dict(
 
 PROPS["C01"] = dict(
     module="Grenad.Props.C01",
-    theorems=T("Grenad.Props.C01", ["C01_levels255_trapped_when_pinned"]),
     streams={"write": (160, 1600)},
     rules={"ops": ["ins", "finish", "file", "c", "interop"], "finish_must_succeed": True, "blocks": True},
 )
 
 PROPS["C03"] = dict(
     module="Grenad.Props.C03",
-    theorems=T("Grenad.Props.C03", ["C03_counterexample_pinned", "C03_witness_repaired"]),
     streams={"cursor": (240, 2400)},
     rules={"ops": ["c", "file"], "fingerprint": True},
 )
+
+PROPS["C02"] = dict(module="Grenad.Props.C02", streams={"seek": (160, 1600)}, rules={"ops": ["c", "file"]})
+PROPS["C04"] = dict(module="Grenad.Props.C04", streams={"iter": (160, 1600)}, rules={"ops": ["range", "file"]})
+PROPS["C05"] = dict(module="Grenad.Props.C05", streams={"iter": (160, 1600)}, rules={"ops": ["prefix", "file"]})
+PROPS["C06"] = dict(module="Grenad.Props.C06", streams={"merge": (320, 3200)}, rules={"ops": ["merge", "mergew"], "calls": True})
+PROPS["C07"] = dict(module="Grenad.Props.C07", streams={"sorter": (240, 2400)}, rules={"ops": ["sfinish", "sins", "snew"], "calls": True})
+PROPS["C08"] = dict(module="Grenad.Props.C08", streams={"sorter": (240, 2400)}, rules={"ops": ["sins", "snew"], "sorter_bounds": True})
+PROPS["C09"] = dict(module="Grenad.Props.C09", streams={"write": (160, 1600)}, rules={"ops": ["finish", "interop", "file"], "blocks": True, "finish_must_succeed": True})
+PROPS["C10"] = dict(module="Grenad.Props.C10", streams={"v1": (120, 1200)}, rules={"ops": ["file", "c", "range", "prefix"]})
+PROPS["C11"] = dict(module="Grenad.Props.C11", streams={"wio": (160, 1600), "rio": (120, 1200), "sorterio": (120, 1200)},
+                    rules={"ops": ["ins", "finish", "sinkstate", "c", "range", "prefix", "file", "sfinish", "sins", "snew"]})
+PROPS["C12"] = dict(module="Grenad.Props.C12", streams={"fault": (16, 160)},
+                    rules={"ops": ["ins", "finish", "sinkstate", "c", "merge", "mergew", "sins", "!sins", "sfinish", "!sfinish", "snew"]})
+PROPS["C15"] = dict(module="Grenad.Props.C15", streams={"write": (160, 1600), "unsorted": (80, 800)}, rules={"ops": ["finish", "ins"], "blocks": True})
+PROPS["C16"] = dict(module="Grenad.Props.C16", streams={"cursor": (160, 1600), "seek": (80, 800), "open": (32, 320)},
+                    rules={"ops": ["c", "open", "file"], "loads": True, "fingerprint": False})
+PROPS["C17"] = dict(module="Grenad.Props.C17", streams={"sorter": (240, 2400)}, rules={"ops": ["sins", "snew", "sfinish"], "alloc": True})
+PROPS["C18"] = dict(module="Grenad.Props.C18", streams={"unsorted": (240, 2400)}, rules={"ops": ["ins", "finish"], "blocks": True})
